@@ -96,7 +96,7 @@ def param_lists(rng, k, p):
     return [[mv() for _ in range(p)] for _ in range(k)], [[vv() for _ in range(p)] for _ in range(k)]
 
 
-def call(c, means, variances, seed, positions=None):
+def call(c, means, variances, seed, positions=None, prebuilt=None, build_only=False):
     if c.get("seed_np"):
         seed = np.int64(seed)
     from skchange.datasets import generate_alternating_data, generate_anomalous_data, generate_changing_data
@@ -112,6 +112,11 @@ def call(c, means, variances, seed, positions=None):
         return num(v)
 
     pos = (lambda t: np.int64(t)) if form == 2 else (lambda t: t)
+    if prebuilt is not None:  # the caller's own argument objects, used for several calls
+        conv = lambda v: v  # noqa: E731
+        means, variances = prebuilt
+    elif build_only:
+        return conv(means), conv(variances)
     if c["kind"] == "changing":
         where = [pos(t) for t in c["cps"]] if positions is None else positions
         return generate_changing_data(pos(c["n"]), where, conv(means), conv(variances), seed)
@@ -161,8 +166,13 @@ def impl(c):
                     pass
                 if json.dumps(shared) != before:
                     return {"outcome": "other:caller-list-modified", "msg": f"the caller's list of positions {before} came back as {json.dumps(shared)} from a rejected call"}
-            a = call(c, c["means"], c["vars"], c["seed"], positions=shared)
-            b = call(c, c["means"], c["vars"], c["seed"], positions=shared)
+            # the very same argument objects (arrays where the form says so) are handed to both calls and must come back unchanged
+            pre = call(c, c["means"], c["vars"], c["seed"], build_only=True)
+            snap = json.dumps(pre, default=lambda o: np.asarray(o).tolist())
+            a = call(c, None, None, c["seed"], positions=shared, prebuilt=pre)
+            b = call(c, None, None, c["seed"], positions=shared, prebuilt=pre)
+            if json.dumps(pre, default=lambda o: np.asarray(o).tolist()) != snap:
+                return {"outcome": "other:caller-arguments-modified", "msg": "the caller's mean / variance objects were modified by the call"}
             assert json.dumps(c["means"]) == means_before
         z = call(c, *neutral(c), c["seed"])
         return {"outcome": "ok", "out": a.to_numpy().tolist(), "again": bool(a.equals(b)), "z": z.to_numpy().tolist(),
